@@ -1,4 +1,5 @@
 CONSTANTS Depth = 2
+          RootPats = "all"
           Mode = "check"
 SPECIFICATION Spec
 INVARIANT Settles
